@@ -213,19 +213,115 @@ theorem immediate_first_of_raise (cfg : Cfg) (fuel : Nat) (p : Comb) (t : Tree) 
   | nil => exact (hne he).elim
   | cons x xs => rw [hr', he] at hm; simpa using hm
 
+/-! ### multi-statement scripts: what RAISE reports relative to the whole WARN run -/
+
+/-- every batch WARN logs (one per `check_errors`, i.e. per statement) is a prefix of the errors collected in the end:
+    errors are never removed, each later statement's batch repeats the earlier ones and appends its own -/
+theorem warn_batches_are_prefixes (cfg : Cfg) (fuel : Nat) (p : Comb) (t : Tree) (sw : St)
+    (hw : run cfg fuel p .warn = .ok t sw) : ∀ b ∈ sw.log, ∃ rest, sw.errors = b ++ rest := by
+  have := exec_inv cfg fuel p (init_inv .warn)
+  simp only [run] at hw
+  rw [hw] at this
+  exact this
+
+/-- **`raise_reports_all` across chunks**: in a script, RAISE stops at the first statement that leaves errors behind and reports
+    ALL errors collected up to and including that statement, in order — they are an initial segment of what the WARN run
+    collects over the whole script (`rest` = the errors of the later statements, which RAISE never reaches). -/
+theorem raise_errors_prefix_of_warn (cfg : Cfg) (fuel : Nat) (p : Comb) (t : Tree) (sw : St) (e : Exn) (s : St)
+    (hw : run cfg fuel p .warn = .ok t sw) (hr : run cfg fuel p .raise = .exc e s) :
+    ∃ rest, sw.errors = e.errors ++ rest :=
+  warn_batches_are_prefixes cfg fuel p t sw hw _
+    (firstNonempty_some_mem (raise_reports_all cfg fuel p t sw e s hw hr).1).1
+
+/-- `merge_errors` over errors produced by `raise_error` (one dict each) neither drops nor reorders anything, and the
+    rendered part of the message is a prefix of it of length min(max_errors, n) -/
+theorem merge_errors_singletons (es : List Msg) (mx : Nat) :
+    mergeErrors (es.map fun m => [m]) = es ∧
+    (concatMessages es mx).1 = es.take mx ∧ (concatMessages es mx).1.length = min mx es.length ∧
+    (concatMessages es mx).2 + (concatMessages es mx).1.length = es.length := by
+  refine ⟨?_, rfl, by simp [concatMessages, List.length_take], ?_⟩
+  · induction es with
+    | nil => rfl
+    | cons m ms ih => simpa [mergeErrors] using ih
+  · simp only [concatMessages, List.length_take]; omega
+
+/-! ### sub-parsers and direct raises -/
+
+/-- programs that use no propagating sub-parser and no direct `raise ParseError` behave exactly as their `Comb` image,
+    so every theorem above holds for them -/
+theorem xrun_confined (cfg : Cfg) (fuel : Nat) (x : XComb) (l : Level) (h : x.confined = true) :
+    xrun cfg fuel x l = run cfg fuel x.toComb l := xexec_confined cfg fuel x (init l) h
+
+/-- PARTIAL (side condition: `x.confined` — no direct-raising builder reached, sub-parser errors confined):
+    IGNORE and WARN never raise and return the same trees -/
+theorem x_ignore_warn_same_partial (cfg : Cfg) (fuel : Nat) (x : XComb) (h : x.confined = true) :
+    (∀ e s, xrun cfg fuel x .ignore ≠ .exc e s) ∧ (∀ e s, xrun cfg fuel x .warn ≠ .exc e s) ∧
+    (∀ t s, xrun cfg fuel x .warn = .ok t s → ∃ s', xrun cfg fuel x .ignore = .ok t s' ∧ s'.ctl = s.ctl) := by
+  rw [xrun_confined cfg fuel x _ h, xrun_confined cfg fuel x _ h]
+  have := ignore_warn_same cfg fuel x.toComb
+  exact ⟨this.1, this.2.1, this.2.2.1⟩
+
+/-- PARTIAL (same side condition): RAISE raises iff WARN logged an error; IMMEDIATE raises iff WARN collected one -/
+theorem x_strict_iff_warn_partial (cfg : Cfg) (fuel : Nat) (x : XComb) (h : x.confined = true) (t : Tree) (sw : St)
+    (hw : xrun cfg fuel x .warn = .ok t sw) :
+    ((∃ e s, xrun cfg fuel x .raise = .exc e s) ↔ ∃ b ∈ sw.log, b ≠ []) ∧
+    ((∃ e s, xrun cfg fuel x .immediate = .exc e s) ↔ sw.errors ≠ []) := by
+  rw [xrun_confined cfg fuel x _ h] at hw ⊢
+  rw [xrun_confined cfg fuel x _ h]
+  exact ⟨(raise_iff_warn_logs cfg fuel x.toComb t sw hw).1, (immediate_is_first cfg fuel x.toComb t sw hw).1⟩
+
+/-- a direct raise and a propagating sub-parser are blind to the outer level and to the errors collected so far -/
+theorem hard_error_level_blind (cfg : Cfg) (n : Nat) (m : Msg) (l : Level) (toks : List Nat) (body : XComb) (s1 s2 : St) :
+    xexec cfg (n + 1) (.hardRaise m) s1 = .exc (Exn.single m) s1 ∧
+    (xexec cfg (n + 1) (.subParse l toks body) s1).tree? = (xexec cfg (n + 1) (.subParse l toks body) s2).tree? ∧
+    ((∃ e, (xexec cfg (n + 1) (.subParse l toks body) s1).obs = .raised e s1.level) ↔
+      ∃ e, (xexec cfg (n + 1) (.subParse l toks body) s2).obs = .raised e s2.level) := by
+  refine ⟨rfl, ?_, ?_⟩ <;> simp only [xexec] <;>
+    generalize xexec cfg n body { level := l, toks := toks } = r <;> cases r <;> simp [subPropagate, Res.tree?, Res.obs]
+
+def xCfg : Cfg := { rules := [], chunks := [], maxErrors := 3, maxNodes := none }
+
+/-- **counter-example to the full statement (known finding C14-hint-subparser-raises)**: `SELECT /*+ */ 1`.  `_parse_hint`
+    re-parses the hint comment in a sub-parser at the default level IMMEDIATE; the sub-parser's error (message 7) is not routed
+    through the outer `raise_error`, so the IGNORE and the WARN run RAISE it, WARN logs nothing, and yet RAISE raises too. -/
+theorem hint_subparser_counterexample :
+    let x : XComb := .seq 0 (.subParse .immediate [] (.core (.raiseError 7))) (.core .checkErrors)
+    (xrun xCfg 9 x .ignore).obs = .raised (Exn.single 7) .ignore ∧
+    (xrun xCfg 9 x .warn).obs = .raised (Exn.single 7) .warn ∧
+    (xrun xCfg 9 x .raise).obs = .raised (Exn.single 7) .raise ∧ x.confined = false := by decide +kernel
+
+/-- the same sub-parser with its error confined (what `to_json_path` does, and what a repair of `_parse_hint` would do):
+    all four levels return, nothing is logged -/
+theorem hint_subparser_confined_ok :
+    let c : Comb := .node 0 (.subConfined .immediate [] (.raiseError 7)) .checkErrors
+    (run xCfg 9 c .ignore).obs = .returned [] [] .ignore ∧ (run xCfg 9 c .warn).obs = .returned [] [[]] .warn ∧
+    (run xCfg 9 c .raise).obs = .returned [] [] .raise ∧ (run xCfg 9 c .immediate).obs = .returned [] [] .immediate := by
+  decide +kernel
+
+/-- **counter-example to the full statement (known finding C14-builder-raises-parseerror; also `alias_(None)`)**: a builder
+    that raises ParseError directly (message 9) after an ordinary error (message 4, collected): the lenient runs raise 9;
+    RAISE raises 9 alone although it had collected 4; IMMEDIATE raises 4, which is not what the others report. -/
+theorem builder_direct_raise_counterexample :
+    let x : XComb := .seq 0 (.core (.raiseError 4)) (.seq 0 (.hardRaise 9) (.core .checkErrors))
+    (xrun xCfg 9 x .ignore).obs = .raised (Exn.single 9) .ignore ∧
+    (xrun xCfg 9 x .warn).obs = .raised (Exn.single 9) .warn ∧
+    (xrun xCfg 9 x .raise).obs = .raised (Exn.single 9) .raise ∧
+    (xrun xCfg 9 x .immediate).obs = .raised (Exn.single 4) .immediate := by decide +kernel
+
 /-! ### generator -/
 
-/-- **IGNORE, WARN and RAISE yield the same SQL text whenever they return**; IGNORE and WARN always return,
+/-- PARTIAL (side condition `gNoHard p`: no direct `raise UnsupportedError` is reached):
+    **IGNORE, WARN and RAISE yield the same SQL text whenever they return**; IGNORE and WARN always return,
     IGNORE logs nothing, WARN logs every message in order. -/
-theorem unsupported_levels (mx : Nat) (p : GComb) :
+theorem unsupported_levels_partial (mx : Nat) (p : GComb) (hn : gNoHard p = true) :
     generate .ignore mx p = .returned (gtext p) [] ∧
     generate .warn mx p = .returned (gtext p) (gmsgs p) ∧
     (∀ sql lg, generate .raise mx p = .returned sql lg → sql = gtext p ∧ lg = []) ∧
     (∀ sql lg, generate .immediate mx p = .returned sql lg → sql = gtext p ∧ lg = []) := by
-  have hi := gexec_soft p ⟨.ignore, []⟩ (by simp)
-  have hw := gexec_soft p ⟨.warn, []⟩ (by simp)
-  have hr := gexec_soft p ⟨.raise, []⟩ (by simp)
-  have hm := gexec_imm p ⟨.immediate, []⟩ rfl
+  have hi := gexec_soft p ⟨.ignore, []⟩ (by simp) hn
+  have hw := gexec_soft p ⟨.warn, []⟩ (by simp) hn
+  have hr := gexec_soft p ⟨.raise, []⟩ (by simp) hn
+  have hm := gexec_imm p ⟨.immediate, []⟩ rfl hn
   refine ⟨by simp [generate, hi], by simp [generate, hw], ?_, ?_⟩
   · intro sql lg h
     simp only [generate, hr, List.nil_append, reduceCtorEq, if_false, true_and] at h
@@ -238,13 +334,13 @@ theorem unsupported_levels (mx : Nat) (p : GComb) :
     | nil => simp only [hg, reduceCtorEq, if_false, false_and] at h; cases h; exact ⟨rfl, rfl⟩
     | cons m ms => simp [hg] at h
 
-/-- **RAISE raises exactly when WARN logs an unsupported message**, and its message is `concat_messages` of all of
-    them: at most `max_unsupported` rendered, then "... and k more". -/
-theorem unsupported_raise_iff_warn_logs (mx : Nat) (p : GComb) :
+/-- PARTIAL (same side condition): **RAISE raises exactly when WARN logs an unsupported message**, and its message is
+    `concat_messages` of all of them: at most `max_unsupported` rendered, then "... and k more". -/
+theorem unsupported_raise_iff_warn_logs_partial (mx : Nat) (p : GComb) (hn : gNoHard p = true) :
     ((∃ r k, generate .raise mx p = .raised r k) ↔ gmsgs p ≠ []) ∧
     (∀ r k, generate .raise mx p = .raised r k →
       r = (gmsgs p).take mx ∧ r.length ≤ mx ∧ k = (gmsgs p).length - mx) := by
-  have hr := gexec_soft p ⟨.raise, []⟩ (by simp)
+  have hr := gexec_soft p ⟨.raise, []⟩ (by simp) hn
   constructor
   · constructor
     · intro ⟨r, k, h⟩ h0
@@ -257,14 +353,22 @@ theorem unsupported_raise_iff_warn_logs (mx : Nat) (p : GComb) :
     · cases h; simp [concatMessages, List.length_take, Nat.min_le_left]
     · cases h
 
-/-- **IMMEDIATE raises exactly when WARN logs a message, and raises the first one** -/
-theorem immediate_raises_first (mx : Nat) (p : GComb) :
+/-- PARTIAL (same side condition): **IMMEDIATE raises exactly when WARN logs a message, and raises the first one** -/
+theorem immediate_raises_first_partial (mx : Nat) (p : GComb) (hn : gNoHard p = true) :
     ((∃ r k, generate .immediate mx p = .raised r k) ↔ gmsgs p ≠ []) ∧
     (∀ r k, generate .immediate mx p = .raised r k → ∃ m, (gmsgs p).head? = some m ∧ r = [m] ∧ k = 0) := by
-  have hm := gexec_imm p ⟨.immediate, []⟩ rfl
+  have hm := gexec_imm p ⟨.immediate, []⟩ rfl hn
   cases hg : gmsgs p with
   | nil => simp [generate, hm, hg]
   | cons m ms => simp [generate, hm, hg]
+
+/-- **counter-example to the full statement (known findings C14-hard-unsupported-1..3)**: a direct
+    `raise UnsupportedError` (exasol GROUP BY ALL, `unnest_to_explode`): IGNORE and WARN raise as well, WARN logs nothing,
+    and the one `self.unsupported` message collected before it (1) is lost under RAISE. -/
+theorem hard_unsupported_counterexample :
+    let p : GComb := .seq (.unsupported 1) (.seq (.hard 5) (.text "x"))
+    generate .ignore 3 p = .raised [5] 0 ∧ generate .warn 3 p = .raised [5] 0 ∧
+    generate .raise 3 p = .raised [5] 0 ∧ generate .immediate 3 p = .raised [1] 0 ∧ gNoHard p = false := by decide +kernel
 
 /-- `generate` starts from an empty message list: what an earlier call on the same Generator left behind is irrelevant -/
 theorem generate_resets_messages (l : Level) (mx : Nat) (p : GComb) (stale : List Msg) :
@@ -280,6 +384,14 @@ theorem level_sites_ok : SqlglotModel.Generated.C14.sites = expectedSites := by 
 /-- the level-relevant statement skeletons of raise_error, validate_expression, _try_parse (incl. the `finally` restore),
     check_errors, concat_messages, Generator.unsupported and Generator.generate are the mirrored ones -/
 theorem level_skeletons_ok : SqlglotModel.Generated.C14.skeletons = expectedSkeletons := by decide +kernel
+
+/-- the `raise ParseError(…)` statements on the parsing side are the audited ones: a NEW direct raise breaks the build -/
+theorem direct_raise_sites_ok :
+    SqlglotModel.Generated.C14.parseErrorRaiseSites = expectedParseErrorRaiseSites ∧
+    SqlglotModel.Generated.C14.unsupportedRaiseSites = expectedUnsupportedRaiseSites := by decide +kernel
+
+/-- the nested parser / tokenizer constructions reachable from parsing (with the error_level they pass) are the audited ones -/
+theorem nested_parser_sites_ok : SqlglotModel.Generated.C14.nestedParserSites = expectedNestedParserSites := by decide +kernel
 
 /-! ### non-vacuity: a program that fails inside a speculative branch, then collects two errors -/
 
